@@ -195,4 +195,27 @@ theorem s2TrivialC_of {t : NT} (hv : t.Valid) {M : ℕ} {w : ITy} {x y z c : ℕ
             · rw [hdiv]; omega
             · rw [h]; exact hvM
 
+/-- the value: at most `π(y)` levels, each term `≤ π(y)`: `S2_trivial ≤ y²` -/
+theorem S2trivial_le {t : NT} (hv : t.Valid) {x y : ℕ} (z c : ℕ) (hyb : y ≤ t.bound) :
+    t.S2trivial x y z c ≤ (y : ℤ) * y := by
+  unfold NT.S2trivial
+  rw [sumInt_sum]
+  have hpiy : t.piOf y = π y := hv.piOf_eq _ hyb
+  have hy := pi_le_self y
+  refine le_trans (list_sum_le_length_mul (B := (y : ℤ)) ?_) ?_
+  · intro q _
+    simp only
+    split_ifs
+    · have : (0 : ℤ) ≤ t.piOf (max q (x / (q * q))) := Int.natCast_nonneg _
+      rw [hpiy]
+      have : (π y : ℤ) ≤ y := by exact_mod_cast hy
+      omega
+    · exact Int.natCast_nonneg y
+  · have hlen : (t.primesIn (max (t.p c) (isqrtN z)) y).length ≤ y := by
+      unfold NT.primesIn
+      rw [List.length_map, List.length_range, hpiy]
+      omega
+    have : ((t.primesIn (max (t.p c) (isqrtN z)) y).length : ℤ) ≤ y := by exact_mod_cast hlen
+    exact mul_le_mul_of_nonneg_right this (Int.natCast_nonneg y)
+
 end Pc.Safety
